@@ -12,7 +12,9 @@ Inductive oact :=
 | OGet1 (k : bytes) | OGet2 (r : getres)
 | OScan1 (p : bytes) | OScan2 (r : list (bytes * bytes))
 | OF1 | OF2 | OC1 (some : bool) | OC2
-| OC1F. (* the compaction step hit an injected storage read fault and Compact returned the error *)
+| OC1F (* the compaction step hit an injected storage read fault and Compact returned the error *)
+| OReadErr (* the following Get / ScanPrefix returned an error *)
+| ODupFile. (* a table file name (NNNNNN.sst) was created or saved a second time *)
 
 (* observations of a level list: Get of every key of the alphabet, ScanPrefix of every prefix *)
 Definition reads := (list getres * list (list (bytes * bytes)))%type.
@@ -66,6 +68,7 @@ Definition to_act (o : oact) : act :=
   | OGet1 k => AGet1 k | OGet2 _ => AGet2
   | OScan1 p => AScan1 p | OScan2 _ => AScan2
   | OF1 => AF1 | OF2 => AF2 | OC1 _ => AC1 | OC2 => AC2 | OC1F => AC1F
+  | OReadErr | ODupFile => AF1 (* not model actions: skipped by model_codes *)
   end.
 
 Definition obs_code (o : oact) (m : obs) : list N :=
@@ -80,6 +83,7 @@ Definition obs_code (o : oact) (m : obs) : list N :=
 Fixpoint model_codes (cfg : dbcfg) (st : db) (acts : list oact) : list N :=
   match acts with
   | [] => []
+  | OReadErr :: r | ODupFile :: r => model_codes cfg st r
   | o :: r =>
       match step cfg st (to_act o) with
       | None => [1]
@@ -97,6 +101,8 @@ Fixpoint spec_codes (m : list (bytes * bytes)) (pend : bytes) (acts : list oact)
       | ODel k _ => spec_codes (sm_del k m) pend r
       | OGet1 k => spec_codes m k r
       | OScan1 p => spec_codes m p r
+      | OReadErr => 100 :: spec_codes m pend r
+      | ODupFile => 19 :: spec_codes m pend r
       | OGet2 g => (if spec_get_ok g (sm_get pend m) then [] else [11]) ++ spec_codes m pend r
       | OScan2 s => (if kvs_eqb s (sm_scan pend m) then [] else if strictly_ascending s then [12] else [13])
                       ++ spec_codes m pend r
